@@ -26,6 +26,7 @@ fn main() {
     let mut lite = cfg!(miri);
     let mut threads: usize = if cfg!(miri) { 1 } else { std::thread::available_parallelism().map(|n| n.get()).unwrap_or(4).min(16) };
     let mut out: Option<String> = None;
+    let mut shard = (0usize, 1usize);
     let mut i = 2;
     while i < args.len() {
         match args[i].as_str() {
@@ -46,6 +47,12 @@ fn main() {
                 i += 1;
                 threads = args[i].parse().expect("threads");
             }
+            "--shard" => {
+                i += 1;
+                let (k, n) = args[i].split_once('/').expect("--shard k/n");
+                shard = (k.parse().expect("shard k"), n.parse().expect("shard n"));
+                assert!(shard.1 >= 1 && shard.0 < shard.1);
+            }
             "--out" => {
                 i += 1;
                 out = Some(args[i].clone());
@@ -57,7 +64,7 @@ fn main() {
         }
         i += 1;
     }
-    let cfg = Cfg { tier, seed, lite, threads, layer };
+    let cfg = Cfg { tier, seed, lite, threads, layer, shard };
     report::install_panic_hook();
     let t0 = Instant::now();
     let mut rep = Report::new();
